@@ -17,8 +17,8 @@ Q0 == Q + T                                \* initial capacity of a library-mana
 Tr == ndJsonDeserialize(IOEnv.TRACE)
 CODES == Tr[1].codes
 MAXI == 4
-VARIABLES l, inst, nbad
-vars == <<l, inst, nbad>>
+VARIABLES l, inst, nbad, armed          \* armed: the OS call most recently armed to be refused
+vars == <<l, inst, nbad, armed>>
 Dead == [alive |-> FALSE, ext |-> FALSE, cap |-> 0, off |-> 0, fit |-> 0, opt |-> DefaultOpt]
 Ev == Tr[l]
 RngT(s) == {s[k] : k \in 1..Len(s)}
@@ -63,6 +63,11 @@ ProbeOpt(codes) ==
                       ELSE IF d4.ops[2].raw.base = -1 /\ d4.ops[2].raw.index = 0 /\ d4.ops[2].raw.scale = 2 THEN "STRICT" ELSE "?"]
 
 (* ------------------------------- the judge ------------------------------- *)
+\* refusals that must surface as the documented failure value: every OS call except munmap / close / free
+\* (e.calls lists the OS calls the library made, one letter each: a malloc b mmap c mremap d munmap e open f fstat
+\*  g read h close i fopen j fwrite k fclose l free)
+MustReport == armed \notin {"munmap", "close", "free", ""}
+
 JudgeCall(e, s, isCount) ==
   LET codes == [j \in 1..Len(e.prog) |-> CodeOf(e.prog[j], s.opt)]
       lens  == [j \in 1..Len(codes) |-> Len(codes[j])]
@@ -74,8 +79,16 @@ JudgeCall(e, s, isCount) ==
       plain == Concat(codes, 1)
       tot   == Len(plain)
   IN
+  \* ---- an OS call the library made during this call was refused (C17) ----
+  IF e.inj THEN
+     (IF e.ret \notin {0, 1} THEN "C09:return-value"
+      ELSE IF MustReport /\ e.ret # 1 THEN "C17:failure-not-reported"
+      ELSE IF e.ret = 1 /\ e.off1 # e.off0 THEN "C17:failed-call-moved-offset"
+      ELSE IF s.ext /\ (e.outside # 0 \/ (e.lo # -1 /\ e.lo < e.off0)) THEN "C17:earlier-code-damaged"
+      ELSE IF ~s.ext /\ e.outside = 4 THEN "C17:earlier-code-damaged"
+      ELSE "")
   \* ---- properties, on the observation ----
-  IF ~e.det THEN "C06:nondeterministic-or-depends-on-buffer-contents"
+  ELSE IF ~e.det THEN "C06:nondeterministic-or-depends-on-buffer-contents"
   ELSE IF e.ret \notin {0, 1} THEN "C09:return-value"
   ELSE IF s.ext /\ e.outside # 0 THEN "C07:outside-buffer"
   ELSE IF s.ext /\ e.lo # -1 /\ (e.lo < e.off0 \/ e.hi >= s.cap) THEN "C07:outside-buffer-or-before-start"
@@ -84,6 +97,8 @@ JudgeCall(e, s, isCount) ==
   ELSE IF ~s.ext /\ good /\ e.ret # 0 THEN "C08:failed-on-managed-buffer"
   ELSE IF e.off0 # s.off THEN "C15:start-offset"
   ELSE IF e.ret # 0 /\ e.off1 # e.off0 THEN "C15:failed-call-moved-offset"
+  ELSE IF "expectfail" \in DOMAIN e /\ e.ret = 0 THEN "C19:missing-or-unreadable-file-accepted"
+  ELSE IF "expectfail" \in DOMAIN e THEN (IF e.off1 = e.off0 /\ e.lo = -1 THEN "" ELSE "C19:failed-file-call-wrote")
   ELSE IF ~good /\ e.ret = 0 THEN "C10:accepted"
   ELSE IF e.ret = 0 /\ m # "F" /\ (e.off1 # e.off0 + tot \/ (e.outok /\ e.out # plain)) THEN "C06:not-concatenation"
   ELSE IF e.ret = 0 /\ isCount /\ e.dest # RefBreaks(lens, c, e.off0) THEN "C14:count"
@@ -91,7 +106,7 @@ JudgeCall(e, s, isCount) ==
                                               e.off1 # ItemsEnd(ref, e.off0) \/ LayoutWhy(ref, codes, e.out, e.off0, 1, 0) # "") THEN "C13:fitting"
   ELSE IF "twcfg" \in DOMAIN e /\ e.twcfg # <<s.opt.mov, s.opt.swap, s.opt.nobase, s.fit, s.off>> THEN "driver:twin-config"
   ELSE IF "twin" \in DOMAIN e /\ (e.twin.ret # e.ret \/ e.twin.off1 # e.off1 \/ e.twin.dest # e.dest \/ (e.twin.outok /\ e.outok /\ e.twin.out # e.out))
-       THEN "C15:differs-from-fresh-instance"
+       THEN (IF e.file THEN "C19:file-differs-from-string" ELSE "C15:differs-from-fresh-instance")
   ELSE IF "mirror" \in DOMAIN e /\ (e.mirror.ret # e.ret \/ (e.ret = 0 /\ (e.mirror.off1 # e.off1 \/ e.mirror.hash # e.hash)))
        THEN "C08:differs-from-caller-buffer"
   \* ---- mechanism conformance ----
@@ -102,6 +117,8 @@ JudgeCall(e, s, isCount) ==
   ELSE IF e.outok /\ LayoutWhy(r.items, okc, e.out, e.off0, 1, 0) \notin (IF e.ret = 0 THEN {""} ELSE {"", "short-output"}) THEN "mech:bytes"
   ELSE ""
 
+CapAfterFault(e, s) ==        \* after a refused OS call the capacity is whatever the last logged step reports
+  IF e.lastcap < 0 THEN s.cap ELSE e.lastcap
 NewCap(e, s, isCount) ==     \* the capacity the mechanism predicts after the call (library-managed buffers grow)
   LET lens == [j \in 1..Len(e.prog) |-> Len(CodeOf(e.prog[j], s.opt))]
       m == IF isCount THEN (IF e.c < 2 THEN "A" ELSE "C") ELSE (IF s.fit >= 2 THEN "F" ELSE "A")
@@ -111,16 +128,28 @@ NewCap(e, s, isCount) ==     \* the capacity the mechanism predicts after the ca
           IF e.nsteps <= 48 THEN Run(s.off, s.cap, lens, m, c, s.ext).cap
           ELSE s.cap + Q * (((IF e.ret = 0 THEN e.off1 ELSE e.off0) + T - s.cap + Q - 1) \div Q)
 
-Report(why) == PrintT(<<"BAD", Ev.sid, why, l, Ev.e, "">>)
+Report(why) == PrintT("BAD|" \o Ev.sid \o "|" \o why \o "|" \o ToString(l) \o "|" \o Ev.e \o "|")
 Advance(newinst, why) ==
   /\ l' = l + 1 /\ inst' = newinst
+  /\ armed' = IF Ev.e = "Arm" THEN Ev.call ELSE IF Ev.e = "Reset" \/ ("inj" \in DOMAIN Ev /\ Ev.inj) THEN "" ELSE armed
   /\ nbad' = IF why = "" THEN nbad ELSE IF Report(why) THEN nbad + 1 ELSE nbad
 
-Init == l = 2 /\ inst = [i \in 1..MAXI |-> Dead] /\ nbad = 0
+Init == l = 2 /\ inst = [i \in 1..MAXI |-> Dead] /\ nbad = 0 /\ armed = ""
 
-Create  == Ev.e = "Create" /\ Advance([inst EXCEPT ![Ev.i] = [alive |-> TRUE, ext |-> Ev.ext, cap |-> IF Ev.ext THEN Ev.cap ELSE Q0, off |-> 0, fit |-> 0, opt |-> DefaultOpt]],
-                                      IF Ev.ret = 0 THEN "" ELSE "C17:create-failed")
-Destroy == Ev.e = "Destroy" /\ Advance([inst EXCEPT ![Ev.i] = Dead], "")
+Create  == Ev.e = "Create" /\
+           Advance([inst EXCEPT ![Ev.i] = IF Ev.ret = 0 THEN [alive |-> TRUE, ext |-> Ev.ext, cap |-> IF Ev.ext THEN Ev.cap ELSE Q0, off |-> 0, fit |-> 0, opt |-> DefaultOpt] ELSE Dead],
+                   IF Ev.inj THEN (IF Ev.ret = 1 THEN "" ELSE "C17:failure-not-reported")
+                   ELSE IF Ev.ret = 0 THEN "" ELSE "C17:create-failed-without-cause")
+Destroy == Ev.e = "Destroy" /\ Advance([inst EXCEPT ![Ev.i] = Dead], IF Ev.ret = 0 THEN "" ELSE "C17:destroy-failed")
+\* asm_create_bin_file: EXIT_SUCCESS only if the complete code reached the file; the file holds exactly [0, offset)
+BinFile == Ev.e = "BinFile" /\
+           Advance(inst, IF Ev.blen # inst[Ev.i].off THEN "mech:binfile-offset"
+                         ELSE IF Ev.ret = 0 /\ (Ev.flen # Ev.blen \/ Ev.fhash # Ev.bhash) THEN (IF Ev.inj THEN "C17:success-but-file-incomplete" ELSE "C19:binfile-contents")
+                         ELSE IF Ev.ret # 0 /\ ~Ev.inj /\ ~("expectfail" \in DOMAIN Ev) THEN "C19:binfile-failed"
+                         ELSE IF Ev.ret = 0 /\ "expectfail" \in DOMAIN Ev THEN "C19:binfile-unwritable-path-succeeded"
+                         ELSE IF Ev.inj /\ Ev.ret = 0 /\ Ev.blen > 0 /\ MustReport /\ (Ev.flen # Ev.blen) THEN "C17:failure-not-reported"
+                         ELSE "")
+Skip2   == Ev.e \in {"Arm", "Skipped"} /\ Advance(inst, "")
 Reset   == Ev.e = "Reset" /\ Advance([i \in 1..MAXI |-> Dead], "")
 Fault   == Ev.e = "Fault" /\ Advance(inst, "C09:fault")
 Other   == Ev.e \in {"Mirror", "SetDebug"} /\ Advance(inst, "")
@@ -130,11 +159,11 @@ SetOffset == Ev.e = "SetOffset" /\ Advance([inst EXCEPT ![Ev.i].off = Ev.k], "")
 Probe   == Ev.e = "Probe" /\ Advance(inst, IF ProbeOpt(Ev.codes) = inst[Ev.i].opt THEN "" ELSE "C12:option-state")
 Exec    == Ev.e = "Exec" /\ Advance(inst, IF "expect" \in DOMAIN Ev /\ Ev.rax # Ev.expect THEN "C08:executed-value" ELSE "")
 Asm     == Ev.e = "Asm" /\ LET s == inst[Ev.i] IN
-             Advance([inst EXCEPT ![Ev.i].off = Ev.off1, ![Ev.i].cap = NewCap(Ev, s, FALSE)], JudgeCall(Ev, s, FALSE))
+             Advance([inst EXCEPT ![Ev.i].off = Ev.off1, ![Ev.i].cap = IF Ev.inj THEN CapAfterFault(Ev, s) ELSE NewCap(Ev, s, FALSE)], JudgeCall(Ev, s, FALSE))
 Count   == Ev.e = "Count" /\ LET s == inst[Ev.i] IN
-             Advance([inst EXCEPT ![Ev.i].off = Ev.off1, ![Ev.i].cap = NewCap(Ev, s, TRUE)], JudgeCall(Ev, s, TRUE))
+             Advance([inst EXCEPT ![Ev.i].off = Ev.off1, ![Ev.i].cap = IF Ev.inj THEN CapAfterFault(Ev, s) ELSE NewCap(Ev, s, TRUE)], JudgeCall(Ev, s, TRUE))
 
-Next == l <= Len(Tr) /\ (Create \/ Destroy \/ Reset \/ Fault \/ Other \/ Opt \/ SetChunk \/ SetOffset \/ Probe \/ Exec \/ Asm \/ Count)
+Next == l <= Len(Tr) /\ (Create \/ Destroy \/ Reset \/ Fault \/ Other \/ BinFile \/ Skip2 \/ Opt \/ SetChunk \/ SetOffset \/ Probe \/ Exec \/ Asm \/ Count)
 Spec == Init /\ [][Next]_vars
 Accepted == TLCGet("stats").diameter = Len(Tr) /\ PrintT(<<"JUDGED", Len(Tr) - 1>>)
 =============================================================================
